@@ -72,3 +72,14 @@ def build(eng, tier):
                           "message_types": sorted(m for m in desc if m not in UNSUPPORTED_MESSAGES), "fields_under_contract": n,
                           "excluded_fields": UNSUPPORTED, "excluded_messages": sorted(UNSUPPORTED_MESSAGES),
                           "functions_analysed": sorted(f.qual for f in fns)}
+
+
+_build_C02 = build
+from . import serde_targets as _st  # noqa: E402
+TRUSTED = list(TRUSTED) + _st.TRUSTED
+
+
+def build(eng, tier):
+    _build_C02(eng, tier)
+    from . import serde_targets
+    serde_targets.add_value_info_target(eng)
